@@ -359,6 +359,15 @@ def _atom(g):
     return ["b", g, True]
 
 
+_loopcache = {}
+
+
+def _loops(b):
+    if id(b) not in _loopcache:
+        _loopcache[id(b)] = b.natural_loops()
+    return _loopcache[id(b)]
+
+
 def reach_formula(b, S, block, stack=(), depth=0):
     if block in stack or depth > 40:
         return True
@@ -381,7 +390,12 @@ def reach_formula(b, S, block, stack=(), depth=0):
                 continue
         g = switch_desc(b, S, sb, taken)
         lab = _atom(g)
-        rc = reach_formula(b, S, sb, stack + (block,), depth + 1)
+        # inside a loop the condition is relative to the current iteration: what made earlier iterations continue is history
+        loops = _loops(b)
+        if sb in loops and block in loops[sb]:
+            rc = True
+        else:
+            rc = reach_formula(b, S, sb, stack + (block,), depth + 1)
         terms.append(lab if rc is True else ["and", rc, lab])
     if not terms:
         return True
